@@ -222,6 +222,35 @@ def check_C19(tier):
             if got != list(want):
                 chk.violation("%s emitted %s, expected %s in this order" % (kind, got, list(want)), replay)
         chk.nontrivial.add("%s:%s" % (kind, json.dumps(case)[:80]))
+    # components inside a partial run (RunTo): an out-port of a source / combinator that ALSO feeds a process outside the run set still emits its
+    # whole stream to the processes that do run - more items than the buffer of the cut connection holds
+    import flowcheck as fc, zoo
+    from zoo import src, psrc, cmd, E
+    build("wfdriver")
+    cuts = [dict(name="SRCCUT", max=2, bufsize=2, procs=[src("s", zoo.items(7)), cmd("want", ["in"]), cmd("other", ["in"])],
+                 edges=[E("s.out", "want.in"), E("s.out", "other.in")], mode="runto", targets=["want"]),
+            dict(name="FCCUT", max=2, bufsize=2, procs=[src("s1", zoo.items(3, "a")), src("s2", zoo.items(2, "b")), dict(name="fc", kind="fcomb", ins=["x", "y"]),
+                                                         cmd("j", ["x", "y"]), cmd("other", ["in"])],
+                 edges=[E("s1.out", "fc.x"), E("s2.out", "fc.y"), E("fc.x>", "j.x"), E("fc.y>", "j.y"), E("fc.y>", "other.in")], mode="runto", targets=["j"]),
+            dict(name="PCCUT", max=2, bufsize=1, procs=[psrc("xs", ["x1", "x2", "x3"]), psrc("ys", ["y1", "y2"]), dict(name="pc", kind="pcomb", params=["x", "y"]),
+                                                         cmd("a", [], ["out"], ["p", "q"]), cmd("other", [], ["out"], ["p"])],
+                 edges=[], pedges=[E("xs.out", "pc.x"), E("ys.out", "pc.y"), E("pc.x>", "a.p"), E("pc.y>", "a.q"), E("pc.y>", "other.p")], mode="runto", targets=["a"])]
+    def cut(inst):
+        exp = fc.expected(inst)
+        return inst, exp, fc.real_runs(inst, [dict(env={}, bufsize=inst["bufsize"], timeout=25), dict(env={"VERIF_JITTER": "11"}, bufsize=1, timeout=25)])
+    for inst, exp, rrs in pmap(cut, cuts, workers=3):
+        for rr in rrs:
+            chk.evaluations += 1
+            replay = dict(instance=inst, variant=rr.variant)
+            got = set(final_ids(rr.snapshot))
+            if rr.timeout or rr.deadlock:
+                chk.violation("%s: partial run to %s did not finish - the component emitted only part of its stream (%d of %d outputs written)"
+                              % (inst["name"], inst["targets"], len(got & set(exp["files"])), len(exp["files"])), replay)
+            elif rr.rc != 0 or not rr.completed:
+                chk.violation("%s: partial run to %s failed: rc=%s %s" % (inst["name"], inst["targets"], rr.rc, rr.stderr[-160:].replace("\n", " | ")), replay)
+            elif got != set(exp["files"]):
+                chk.violation("%s: partial run to %s: outputs %s, expected %s" % (inst["name"], inst["targets"], sorted(got)[:8], sorted(exp["files"])[:8]), replay)
+        chk.nontrivial.add("component-in-partial-run:" + inst["name"])
     chk.sample(dict(kind="component-cases", exported_by_tlc=len(cases), replayed=len(jobs) + len(simple), examples=[j[1] for j in jobs[:3]]))
     chk.extra["exhaustive"] = True
     return chk.finish()
